@@ -53,7 +53,7 @@ CHECKS["C06"] = (
     "DESIGN.md section 3 C06")
 CHECKS["C07"] = (
     "bitwise identity monitor + single-element perturbation (metamorphic) monitor + autograd Jacobian sparsity/sign pattern on the "
-    "real coupling layers, masks enumerated exhaustively for 2..5 features with numeric values of both signs; the same calls on other memory layouts of the inputs; a twin built from a mask tensor that the caller then modifies; unconditional transform of the identity features against the library's Piecewise CDF built by hand with the layer's bins / tails / tail bound",
+    "real coupling layers, masks enumerated exhaustively for 2..5 features with numeric values of both signs; the same calls on other memory layouts of the inputs; a twin built from a mask tensor that the caller then modifies; unconditional transform of the identity features against the library's Piecewise CDF built by hand with the layer's bins / tails / tail bound; broadcast (stride-0) inputs; infinite identity values",
     "Every non-trivial subset mask for 2-5 features, with mask values drawn from {-2,-1,0 | 0.5,1,3}, for all seven coupling classes, "
     "2-D and image inputs, both directions, with/without context and unconditional transform: identity features compared bit-for-bit, "
     "each transformed input perturbed alone and every other output required bit-identical, own output monotone.",
@@ -63,7 +63,7 @@ CHECKS["C07"] = (
 CHECKS["C08"] = (
     "hand-chained reference monitor over random wrapper programs (Composite/Inverse nestings) in float64 and in the mixed "
     "default-float32 / .double() world; unique-id routing monitor for the multiscale composite against a pure-python model of the "
-    "documented routing, exhaustive over shapes x split_dim x stages up to a bound; CompositeCDFTransform against squash -> cdf -> squash^-1 chained from the caller's own objects after their values changed",
+    "documented routing, exhaustive over shapes x split_dim x stages up to a bound; CompositeCDFTransform against squash -> cdf -> squash^-1 chained from the caller's own objects after their values changed; reference walking the structure as written; wrapper-reach clause",
     "Wrapper results are compared with the parts applied by the harness in the stated order (outputs bitwise, log-dets to 1e-12, dtype "
     "included); multiscale inputs are distinct integers and stage i adds 10^(4+i), so each output value identifies its source "
     "coordinate and the stages it traversed; inverse(forward(x)) == x exactly; log-det bookkeeping checked with per-stage scales.",
@@ -95,7 +95,7 @@ CHECKS["C09"] = (
 CHECKS["C17"] = (
     "exception-type / finiteness monitor with single-probe batches placed on, one ulp inside/outside, 1e-6 inside/outside and far "
     "outside every domain boundary, for the restricted nonlinearities, the four spline functions (boxes and tail bounds 0.5..1e6, "
-    "float32 and float64) and their coupling / autoregressive / CDF wrappers; boxes whose square leaves the floating range, one-bin splines with tails, single-row batches; double-precision inputs under a single-precision default dtype with non-representable bounds",
+    "float32 and float64) and their coupling / autoregressive / CDF wrappers; boxes whose square leaves the floating range, one-bin splines with tails, single-row batches; double-precision inputs under a single-precision default dtype with non-representable bounds; accepted probes as requires_grad leaves; batches of 2e5 rows",
     "InputOutsideDomain (exactly the library's class or a subclass) must be raised iff the probe is outside the mathematical domain "
     "of that direction; in-domain probes must return finite numbers and raise nothing (any other exception type is a violation); "
     "unconstrained splines must accept every finite input and be the identity beyond the bound.",
@@ -123,7 +123,7 @@ CHECKS["C14"] = (
 CHECKS["C12"] = (
     "metamorphic monitor over pairs of executions: whole batch vs rows alone (batch size 1) vs a permuted batch vs the same row among "
     "extreme in-domain companions vs duplicated rows, for forward / inverse / log_prob / transform_to_noise of transforms, flows and "
-    "distributions in eval mode, every variant on a fresh never-called deep copy of the model; the same batch in other memory layouts (feature-major, channels-last, strided rows); one far-out companion row (+-100) beside ordinary rows",
+    "distributions in eval mode, every variant on a fresh never-called deep copy of the model; the same batch in other memory layouts (feature-major, channels-last, strided rows); one far-out companion row (+-100) beside ordinary rows; a raising batch whose rows alone succeed",
     "Row-wise agreement to 1e-9 (float64) between the variants for the whole transform zoo (2-D and image inputs, with/without "
     "context, never-initialised ActNorm included), generic / packaged flows and all distribution classes; companions straddle the tail "
     "bounds and domain end-points so that inside/outside masks differ between the variants.",
@@ -133,7 +133,7 @@ CHECKS["C13"] = (
     "TorchDispatchMode write-watch on every public call (schema is_write flags x storage identity of caller tensors, parameters, "
     "buffers) + bitwise before/after snapshots (incl. the storage surrounding views) + history-independence monitor (every call of a "
     "random call sequence vs the same call on a fresh never-called copy, bit for bit) + the repository's own test-suite run under a "
-    "class-level contract plugin (argument bit patterns and eval-mode state before/after each of ~670 wrapped calls); reuse/update phase: caller refills its argument tensors in place under no_grad, values change through train()..eval(), results compared bitwise with a never-called copy; training-mode flags of sub-modules and autograd status of buffers compared around every call; partly frozen flows; a third of the calls under no_grad, tensors returned by earlier calls re-checked for bit changes after every later call, inverse called on the very tensor forward returned",
+    "class-level contract plugin (argument bit patterns and eval-mode state before/after each of ~670 wrapped calls); reuse/update phase: caller refills its argument tensors in place under no_grad, values change through train()..eval(), results compared bitwise with a never-called copy; training-mode flags of sub-modules and autograd status of buffers compared around every call; partly frozen flows; a third of the calls under no_grad, tensors returned by earlier calls re-checked for bit changes after every later call, inverse called on the very tensor forward returned; channels-last arguments; single-precision pre-call history",
     "For transforms, flows and distributions in eval and training mode, inputs/context presented plain, as slices of a larger tensor, "
     "non-contiguous and as requires_grad leaves: no ATen op may write into caller or (eval) model storage, snapshots must be bit-identical, "
     "training-mode writes must be on the documented statistics only, and results must not depend on earlier calls (mixed operations, mixed "
